@@ -26,7 +26,8 @@ impl<VM: VMBinding, S: LinearScanObjectSize, const ATOMIC_LOAD_VO_BIT: bool>
     /// Create an iterator for the address range. The caller must ensure
     /// that the VO bit metadata is mapped for the address range.
     pub fn new(start: Address, end: Address) -> Self {
-        debug_assert!(start < end);
+        // An empty range is legal (e.g. a space nothing has been allocated into yet).
+        debug_assert!(start <= end);
         debug_assert!(
             start.is_aligned_to(ObjectReference::ALIGNMENT),
             "start is not word-aligned: {start}"
